@@ -46,6 +46,10 @@ CHECKS = {
    technique="bounded symbolic execution of the real Go server code (LSPServer.changedText/applyIncrementalChanges, protocol.Mapper; go/ssa -> SMT bit-vectors) on a symbolic document, range and replacement; z3 decides each assertion against a UTF-16 client model; counterexamples replayed natively",
    text="(*LSPServer).changedText with applyIncrementalChanges and protocol.Mapper.RangeOffsets/PositionOffset/initLines (real utf8 decoding) run symbolically on a document of 0..3 (quick) / 0..4 (thorough) fully symbolic bytes (valid UTF-8 incl. 2-, 3- and 4-byte characters, several lines), one incremental change whose start and end (line, character) are symbolic in 0..6 and whose replacement text is 0..2 symbolic bytes: a range that exists in the client's UTF-16 model is accepted and the resulting text equals the client's; a range outside the document (line or character beyond the end, start after end) is rejected; the stored text is untouched. Because the pre-state document is arbitrary, one step covers every position in a sequence of notifications (each step starts from some document). Full-document changes replace the text.",
    note="Trusted: the client model in the harness, go/ssa, the executor (validated per run by native replay of path models), z3 5.1.0. DocumentURI.Path (net/url) is an opaque stub; carriage returns and positions inside a surrogate pair are excluded by assumption; DidChange's logging/JSON and SyncFile are not on the path; documents longer than 4 bytes are outside the bound."),
+ "C08": dict(engine=E1, category="model_checking", design="DESIGN.md#C08",
+   technique="bounded symbolic execution of the real Go scanners and of format.File's dispatch (go/ssa -> SMT bit-vectors, real unicode tables) on symbolic source bytes; every path must end without a panic and reach EOF within a call bound; z3 decides path feasibility; counterexamples replayed natively",
+   text="Partial claim. The three scanners (internal/scanner for Wa/Wz, internal/wat/scanner, internal/native/scanner) are driven exactly as their callers drive them (Init, then Scan until EOF) on fully symbolic input: every input of 0..1 arbitrary bytes and every 2-byte input with an ASCII first byte (quick), every other 2-byte input and every 3-byte ASCII input (thorough), with and without an error handler and comment mode. On every path: no panic (index out of range, nil dereference, explicit panic) and EOF is reached within 2n+4 Scan calls, i.e. each call makes progress - the bounded-time half of the property as a per-call lemma. format.File: for 9 file names (known, unknown, upper-case, empty extensions) and 0..2 arbitrary content bytes, language detection (xlang.DetectLang with the real scanner) and dispatch never panic.",
+   note="Trusted: go/ssa, the executor (validated per run by native replay of path models), z3 5.1.0. The formatters behind format.File (parser + printer, tabwriter) are stubs returning zero values: only the dispatch is claimed. Parsers, the type checker, the loader and inputs longer than 3 bytes are outside the claim (pointer-rich recursive code the executor cannot explore at useful sizes) - stated, not replaced by testing."),
  # ---CHECKS-END---
 }
 NA = {
